@@ -125,7 +125,10 @@ def run_real(ctx, case, shape, linear):
     t = Toks(rep)
     t.bool(); t.bool()
     lo = semgen.parse_val(t)
-    mx = max([float(c) for v in lo if v is not None for c in v] + [0.0])
+    try:
+        mx = max([float(c) for v in lo if v is not None for c in v] + [0.0])
+    except OverflowError:
+        mx = math.inf
     if mx > 50:
         ctx.count('real.divergent-skipped')
         return
